@@ -1,3 +1,5 @@
 MODULES = [
     "contracts.c06_ids",
+    "contracts.c03_validate",
+    "contracts.c03_finite",
 ]
